@@ -44,6 +44,21 @@ pub fn run_c10(ctx: &mut Ctx) {
          transports whose poll_write / poll_write_vectored accept 1..n bytes (cutting inside the header, at the seams, inside padding) or return Pending; flush calls between writes. Oracle: independent record decoder on the byte log. \
          Non-trivial: >= 2 pollers or a short-write/pending answer occurred; distinct by case");
     let mut rng = ctx.rng.fork();
+    // corpus first: minimised past failures
+    let corpus = std::path::Path::new(env!("CARGO_MANIFEST_DIR")).join("../corpus/C10.txt");
+    if let Ok(text) = std::fs::read_to_string(&corpus) {
+        let mut wl: Vec<u8> = vec![]; let mut cur = String::new(); let mut any = false;
+        let mut finish = |or: &mut Oracle, log: &Log, cur: &str, wl: &mut Vec<u8>, any: bool| { if any { let (_, partial, bad) = decode_log(wl); if bad.is_some() || !partial.is_empty() { or.fail(format!("corpus history {cur}: the bytes written are not a sequence of complete records"), log.replay_block(), format!("C10:malformed:{cur}")); } or.eval((cur.to_string(), wl.len()), true); or.count("corpus_cases"); } wl.clear(); };
+        for line in text.lines() {
+            if let Some(id) = line.strip_prefix("# case ") { finish(&mut or, &log, &cur, &mut wl, any); log.case(id); cur = id.to_string(); any = true; }
+            else if line.starts_with("a.") {
+                let o = ex(&mut log, &mut im, line);
+                wl.extend(unhex(field(&o, "wd").unwrap_or("-")));
+                if o.starts_with("panic") { or.fail(format!("corpus history {cur}: `{}` panicked", &line[..line.len().min(40)]), log.replay_block(), format!("C10:panic:{cur}")); }
+            }
+        }
+        finish(&mut or, &log, &cur, &mut wl, any);
+    }
     for ci in 0..ctx.n(1200, 10_000) {
         if or.saturated() { or.count("stopped_early_saturated"); break; }
         let id = rng.range(1, 65535) as u16;
@@ -85,18 +100,34 @@ pub fn run_c10(ctx: &mut Ctx) {
         if abort_case { or.count("filter_not_writeable"); continue; }
         let mut wlog: Vec<u8> = vec![];
         let mut guard = 0; let mut shortw = false;
-        let mut req_reads = 0;
+        let mut req_reads = 0; let mut pend_streak = 0usize;
         loop {
             guard += 1; if guard > 3_000 { or.fail("writers did not finish (transport always accepts eventually)".into(), log.replay_block(), "C10:hang".into()); break; }
             let active: Vec<usize> = ws.iter().enumerate().filter(|(_, w)| !w.dead && (w.cur < w.jobs.len() || w.in_flush)).map(|(i, _)| i).collect();
             if active.is_empty() { break; }
             // sometimes poll the request itself (reads management records, flushes replies under the same mutex)
-            if req_reads < 40 && rng.chance(1, 5) { let o = ex(&mut log, &mut im, &format!("a.read {}", 1 + rng.usize_below(8))); wlog.extend(unhex(field(&o, "wd").unwrap_or("-"))); req_reads += 1; if field(&o, "ev").map_or(false, |e| e.contains(":P")) { shortw = true; } continue; }
+            // (the request must keep being polled while it holds the mutex for a reply whose flush is Pending: writers wait for it)
+            if (req_reads < 40 && rng.chance(1, 5)) || pend_streak > 12 { pend_streak = 0; let o = ex(&mut log, &mut im, &format!("a.read {}", 1 + rng.usize_below(8))); wlog.extend(unhex(field(&o, "wd").unwrap_or("-"))); req_reads += 1; if field(&o, "ev").map_or(false, |e| e.contains(":P")) { shortw = true; } continue; }
+            // a clone made in the MIDDLE of the schedule — its source may be idle, waiting for the mutex, inside a record (Pending or
+            // partially written) or flushing — is an independent, idle writer of the same stream
+            if ws.len() < 5 && rng.chance(1, 25) {
+                let src = *rng.pick(&active);
+                let (sidx, srtype) = (ws[src].idx, ws[src].rtype);
+                let o = ex(&mut log, &mut im, &format!("a.clone {sidx}"));
+                if let Some(idx) = o.strip_prefix('w').and_then(|r| r.split(' ').next()).and_then(|x| x.parse::<usize>().ok()) {
+                    let njobs = 1 + rng.usize_below(3);
+                    let jobs = (0..njobs).map(|_| { let len = *rng.pick(&[1usize, 7, 8, 9, 30, 200]); Job { data: rng.bytes(len), flush_after: rng.chance(1, 4) } }).collect();
+                    ws.push(W { idx, rtype: srtype, jobs, cur: 0, in_flush: false, done_payloads: vec![], dead: false });
+                    or.count("clones_made_mid_schedule");
+                } else { or.fail(format!("cloning a writer failed: {o}"), log.replay_block(), "C10:clone".into()); }
+                continue;
+            }
             let wi = *rng.pick(&active);
             let w = &mut ws[wi];
             let o = if w.in_flush { ex(&mut log, &mut im, &format!("a.fpoll {}", w.idx)) } else { ex(&mut log, &mut im, &format!("a.wpoll {} {}", w.idx, hexd(&w.jobs[w.cur].data))) };
             wlog.extend(unhex(field(&o, "wd").unwrap_or("-")));
             if let Some(e) = field(&o, "ev") { if e.contains(":P") || e.split(',').any(|x| { let mut it = x.split(':'); let l = it.next().unwrap_or(""); let r = it.next().unwrap_or(""); l.starts_with('V') && r.parse::<usize>().ok() != l[1..].split('+').map(|z| z.parse::<usize>().unwrap_or(0)).sum::<usize>().into() }) { shortw = true; } }
+            if o.starts_with("pending") { pend_streak += 1; } else { pend_streak = 0; }
             if o.starts_with("panic") { or.fail(format!("writer poll panicked: {o}"), log.replay_block(), "C10:panic".into()); w.dead = true; continue; }
             if o.starts_with("err") { or.fail(format!("writer poll failed without a transport fault: {o}"), log.replay_block(), "C10:error".into()); w.dead = true; continue; }
             if o.starts_with("ready") {
@@ -122,17 +153,25 @@ pub fn run_c10(ctx: &mut Ctx) {
         if !partial.is_empty() { or.fail(format!("byte log ends with {} bytes of an incomplete record although every write completed", partial.len()), log.replay_block(), "C10:partial".into()); }
         let mut next: Vec<usize> = vec![0; ws.len()];
         let mut replies = vec![];
+        let mut stream_recs: Vec<(u8, Vec<u8>)> = vec![];
         for r in &recs {
             if r.rtype == T_STDOUT || r.rtype == T_STDERR {
                 let okfmt = r.id == id && r.pad.len() < 8 && (r.content.len() + r.pad.len()) % 8 == 0 && r.pad.iter().all(|&b| b == 0) && !r.content.is_empty();
                 if !okfmt { or.fail(format!("stream record malformed: type {} id {} len {} pad {}", r.rtype, r.id, r.content.len(), r.pad.len()), log.replay_block(), "C10:record-format".into()); }
-                // attribute to a writer of that type whose next completed payload matches
-                let mut found = false;
-                for (i, w) in ws.iter().enumerate() { if w.rtype == r.rtype && next[i] < w.done_payloads.len() && w.done_payloads[next[i]] == r.content { next[i] += 1; found = true; break; } }
-                if !found { or.fail(format!("a {}-byte record of type {} in the log matches no writer's next completed write (interleaved, duplicated or reordered payload)", r.content.len(), r.rtype), log.replay_block(), "C10:attribution".into()); }
+                stream_recs.push((r.rtype, r.content.clone()));
             } else { replies.extend(r.ser()); }
         }
-        for (i, w) in ws.iter().enumerate() { if next[i] != w.done_payloads.len() { or.fail(format!("writer {} completed {} writes but only {} of its records reached the client", w.idx, w.done_payloads.len(), next[i]), log.replay_block(), "C10:lost".into()); } }
+        // the stream records, in log order, must be an interleaving of the writers' completed payload sequences (per stream type; a
+        // search, not a greedy match: two writers of one stream may complete identical payloads)
+        { let seqs: Vec<(u8, &Vec<Vec<u8>>)> = ws.iter().map(|w| (w.rtype, &w.done_payloads)).collect();
+          fn go(p: usize, next: &mut Vec<usize>, recs: &[(u8, Vec<u8>)], seqs: &[(u8, &Vec<Vec<u8>>)], dead: &mut std::collections::HashSet<(usize, Vec<usize>)>) -> bool {
+              if p == recs.len() { return next.iter().zip(seqs).all(|(n, s)| *n == s.1.len()); }
+              if dead.contains(&(p, next.clone())) { return false; }
+              for i in 0..seqs.len() { if seqs[i].0 == recs[p].0 && next[i] < seqs[i].1.len() && seqs[i].1[next[i]] == recs[p].1 { next[i] += 1; if go(p + 1, next, recs, seqs, dead) { return true; } next[i] -= 1; } }
+              dead.insert((p, next.clone())); false }
+          let total: usize = seqs.iter().map(|s| s.1.len()).sum();
+          if !go(0, &mut next, &stream_recs, &seqs, &mut Default::default()) {
+              or.fail(format!("the {} stream records in the log are not an interleaving of the writers' {} completed writes (a payload was lost, duplicated, reordered within a writer, or mixed)", stream_recs.len(), total), log.replay_block(), "C10:attribution".into()); } }
         // a role without input streams never reads from the transport while the handler runs (active stream none)
         let exp_replies = if role == 2 { vec![] } else { exp_replies };
         if replies != exp_replies { or.fail(format!("management replies in the log ({} bytes) differ from those owed ({} bytes)", replies.len(), exp_replies.len()), log.replay_block(), "C10:replies".into()); }
